@@ -291,8 +291,8 @@ def run(ctx):
     ctx.ob("R-SIB", "C15.4", csc, "criterion `log_dZ` = |log Z - previous recorded log Z| (inf at the first iteration)", got_ == ref_, f"{sorted(got_)}")
     # ... and the "previous recorded log Z" is the same quantity one iteration earlier: what update_history appends to
     # history['logZ'] is the run's own log-evidence (self.state.logZ, directly or through the log_evidence property)
-    le_ = prog.cls(INS).methods.get("log_evidence")
-    le_ok = le_ is not None and [canon(n.value) for n in walk_no_nested(le_.node) if isinstance(n, ast.Return)] == ["self.state.logZ"]
+    le_ = prog.find_method(prog.cls(INS), "log_evidence")  # the sampler's own property or one inherited from the base class
+    le_ok = le_ is not None and [canon(n.value) for n in walk_no_nested(le_.node) if isinstance(n, ast.Return)] in (["self.state.logZ"], ["self.state.log_evidence"])
     rec_ = [(m_, c_) for m_ in prog.cls(INS).methods.values() for c_ in walk_no_nested(m_.node) if isinstance(c_, ast.Call) and isinstance(c_.func, ast.Attribute) and c_.func.attr in ("append", "extend", "insert") and canon(c_.func.value) == "self.history['logZ']"]
     okrec = len(rec_) == 1 and rec_[0][0].name == "update_history" and rec_[0][1].func.attr == "append" and len(rec_[0][1].args) == 1 and canon(rec_[0][1].args[0]) in ("self.state.logZ", "self.log_evidence") and le_ok
     ctx.ob("R-SIB", "C15.4", uh2, "the log Z recorded in the history (the `previous log Z` of log_dZ) is the run's own log-evidence self.state.logZ", okrec, f"{[(m_.name, src(c_)[:80]) for m_, c_ in rec_]}")
